@@ -1,0 +1,27 @@
+//go:build verif
+
+// Contracts for the interfaces of package conn, used by /verif (gvc) wherever they are called
+// (rtpconn, diskwriter).  This file contains no declarations; it is compiled only with the verif build tag.
+
+package conn
+
+//@ iface conn.UpTrack.Codec
+//@   why conn.UpTrack: returns the codec capability of the remote track; an observer
+//@   pure
+//@
+//@ iface conn.UpTrack.RequestKeyframe
+//@   why sends a PLI upstream; touches the up track only
+//@   modifies nothing
+//@
+//@ iface conn.UpTrack.GetPacket
+//@   why conn.UpTrack: copies a cached packet into result and returns its length, or returns 0 (and may schedule an upstream NACK);
+//@        the cache stores each packet under the sequence number in its own header (rtpreader.readLoop stores
+//@        packet.SequenceNumber with the bytes it was parsed from; packetcache.Get returns exactly a stored packet, C05)
+//@   modifies full(result)
+//@   ensures length: int(result0) <= len(result) && result0 <= 1504
+//@   ensures own-seqno: result0 >= 4 ==> ((uint16(result[2]) << 8) | uint16(result[3])) == seqno
+//@
+//@ iface conn.UpTrack.Kind
+//@   why conn: the media kind of a track is fixed when the track is created
+//@   pure
+//@   reads none
